@@ -21,6 +21,10 @@ pub enum Case {
     /// x, negated, corner-on-curve; for X25519 arbitrary 32 bytes incl. non-canonical u): the shared
     /// secret must be the reference's
     PeerKey { kem: KemId, ikm_own: Bytes, peer: Bytes, stream: Bytes },
+    /// NIST curves: the peer key is d^-1 * (0, sqrt(b)) for the own private key d, so that the
+    /// Diffie-Hellman x-coordinate is all-zero - a perfectly valid exchange on these curves (only
+    /// X25519 has an all-zero rule)
+    ZeroXDh { kem: KemId, ikm_own: Bytes, stream: Bytes },
     /// golden input whose first P-256 candidate is >= n (index into corpus/p256_counter1.json)
     Counter1 { index: usize },
     /// ikmR/ikmS/ikmE -> key pairs of a committed vector ("anchors" or "golden")
@@ -145,12 +149,48 @@ fn check_peer(kem: KemId, ikm_own: &[u8], peer: &[u8], stream: &[u8], obs: &mut 
     Verdict::Pass
 }
 
+/// The peer key whose DH with private key `sk` has x-coordinate zero: (sk^-1 mod n) * (0, sqrt(b))
+fn zero_x_peer(kem: KemId, sk: &[u8]) -> Option<Vec<u8>> {
+    use crate::refmodel::arith::{from_be, Affine, Mont};
+    let c = kem.curve()?;
+    let zero = vec![0u64; c.k()];
+    let y = c.lift_x(&zero)?;
+    let p0 = c.from_affine(&Affine { x: zero, y });
+    let fnm = Mont::new(c.n.clone());
+    let d = from_be(sk, c.k());
+    let dinv = fnm.from_mont(&fnm.inv(&fnm.to_mont(&d)));
+    let q = c.to_affine(&c.scalar_mul(&dinv, &p0))?;
+    Some(c.encode(&q))
+}
+
 /// Valid but unusual peer keys
 fn peer_keys(kem: KemId, seed: u64) -> Vec<Vec<u8>> {
     match kem.curve() {
-        Some(c) => super::c09::constructed_public(kem, seed).into_iter().filter(|(h, b)| !h.starts_with("tag-byte") && c.valid_public(b)).map(|(_, b)| b).collect(),
+        Some(c) => {
+            let mut v: Vec<Vec<u8>> = super::c09::constructed_public(kem, seed).into_iter().filter(|(h, b)| !h.starts_with("tag-byte") && c.valid_public(b)).map(|(_, b)| b).collect();
+            // k*G for tiny k (the generator itself is an ephemeral key with private scalar 1) and -G
+            for k in 1..=3u8 {
+                let mut sk = vec![0u8; c.fb];
+                sk[c.fb - 1] = k;
+                if let Some(pk) = c.base_mul_sec1(&sk) {
+                    if k == 1 {
+                        if let Some(n) = super::c07::same_dh_encoding(kem, &pk) {
+                            v.push(n);
+                        }
+                    }
+                    v.push(pk);
+                }
+            }
+            v
+        }
         None => {
             let mut v: Vec<Vec<u8>> = (0..6u64).map(|i| gen::fill(32, 9, seed ^ i)).collect();
+            // the base point u = 9 (an ephemeral key with private scalar "1") and small multiples' neighbours
+            for u0 in [9u8, 3, 4, 5] {
+                let mut b = vec![0u8; 32];
+                b[0] = u0;
+                v.push(b);
+            }
             // non-canonical u (>= p) and bit 255 set: RFC 7748 masks / reduces them
             let mut a = vec![0xffu8; 32];
             a[0] = 0xf0;
@@ -174,7 +214,7 @@ impl Property for P {
         "C03"
     }
     fn rule(&self) -> String {
-        "Generated: per KEM, ikm of any length 0..=300 (derive), RNG streams (gen_keypair), recipient/sender/ephemeral inputs x {plain, auth} (encap/decap); decap of / encap to unusual valid peer keys (points lifted from small x, negated points, corner x values on the curve; X25519 non-canonical u and bit 255). \
+        "Generated: per KEM, ikm of any length 0..=300 (derive), RNG streams (gen_keypair), recipient/sender/ephemeral inputs x {plain, auth} (encap/decap); decap of / encap to unusual valid peer keys (points lifted from small x, negated points, corner x values on the curve; X25519 non-canonical u and bit 255; the generator and tiny multiples of it; for the NIST curves the peer d^-1*(0, sqrt(b)) whose DH x-coordinate is zero); ephemeral randomness that reproduces a static key of the exchange (enc == pkR / pkS), identity key pair equal to the recipient's. \
          Swept: every ikm length 0..=300 and 65536 for each of 4 KEMs; 4 KEMs x {plain, auth} cells; the P-256 retry-path golden inputs; key pairs of all committed vectors. \
          Oracle: reference DeriveKeyPair / Encap / Decap (own HKDF, own curve arithmetic; X25519 private keys compared up to RFC 7748 clamping). \
          Non-trivial: an auth variant, or ikm length != 32, or a retry-path input."
@@ -202,8 +242,22 @@ impl Property for P {
             4 => (gen::kem(), gen::ikm()).prop_map(|(kem, ikm)| Case::Derive { kem, ikm }),
             1 => (gen::kem(), gen::bytes(4200)).prop_map(|(kem, ikm)| Case::Derive { kem, ikm }),
             2 => (gen::kem(), gen::stream()).prop_map(|(kem, stream)| Case::Gen { kem, stream }),
-            6 => (gen::kem(), any::<bool>(), gen::ikm(), gen::ikm(), gen::stream())
-                .prop_map(|(kem, auth, ikm_r, ikm_s, stream)| Case::Encap { kem, auth, ikm_r, ikm_s, stream }),
+            6 => (gen::kem(), any::<bool>(), gen::ikm(), gen::ikm(), gen::stream(), 0u8..20)
+                .prop_map(|(kem, auth, mut ikm_r, mut ikm_s, stream, rel)| {
+                    // the ephemeral randomness reproduces a static key (enc == pkR / pkS), or the
+                    // sender's identity key pair is the recipient's
+                    let n = kem.nsk();
+                    match rel {
+                        0 => ikm_r = Bytes(stream[..n].to_vec()),
+                        1 => ikm_s = Bytes(stream[..n].to_vec()),
+                        2 => ikm_r = Bytes(stream[n..2 * n].to_vec()),
+                        3 => ikm_s = Bytes(stream[n..2 * n].to_vec()),
+                        4 => ikm_s = ikm_r.clone(),
+                        _ => {}
+                    }
+                    Case::Encap { kem, auth, ikm_r, ikm_s, stream }
+                }),
+            1 => (proptest::sample::select(vec![KemId::P256, KemId::P384, KemId::P521]), gen::ikm(), gen::stream()).prop_map(|(kem, ikm_own, stream)| Case::ZeroXDh { kem, ikm_own, stream }),
             3 => (gen::kem(), gen::ikm(), any::<u64>(), any::<u16>(), gen::stream()).prop_map(|(kem, ikm_own, seed, idx, stream)| {
                 let list = peer_keys(kem, seed);
                 let peer = Bytes(list[crate::engine::pick_index(idx, list.len())].clone());
@@ -245,6 +299,27 @@ impl Property for P {
             }
         }
         let mut peers = Vec::new();
+        for kem in [KemId::P256, KemId::P384, KemId::P521] {
+            for i in 0..3u64 {
+                peers.push(Case::ZeroXDh { kem, ikm_own: Bytes(gen::fill(kem.nsk(), 5, 700 + i)), stream: Bytes(gen::fill(160, 5, 800 + i)) });
+            }
+        }
+        for kem in KemId::ALL {
+            for (rel, auth) in [(0u8, false), (0, true), (1, true), (2, false), (3, true), (4, true)] {
+                let stream = gen::fill(160, 5, 900 + rel as u64);
+                let n = kem.nsk();
+                let mut ikm_r = gen::fill(n, 5, 901);
+                let mut ikm_s = gen::fill(n, 5, 902);
+                match rel {
+                    0 => ikm_r = stream[..n].to_vec(),
+                    1 => ikm_s = stream[..n].to_vec(),
+                    2 => ikm_r = stream[n..2 * n].to_vec(),
+                    3 => ikm_s = stream[n..2 * n].to_vec(),
+                    _ => ikm_s = ikm_r.clone(),
+                }
+                peers.push(Case::Encap { kem, auth, ikm_r: Bytes(ikm_r), ikm_s: Bytes(ikm_s), stream: Bytes(stream) });
+            }
+        }
         for kem in KemId::ALL {
             for (i, pk) in peer_keys(kem, 33).into_iter().enumerate() {
                 peers.push(Case::PeerKey { kem, ikm_own: Bytes(gen::fill(kem.nsk(), 5, 500 + i as u64)), peer: Bytes(pk), stream: Bytes(gen::fill(160, 5, 600 + i as u64)) });
@@ -278,6 +353,21 @@ impl Property for P {
                 obs.label(format!("peer-key:{}", kem.name()));
                 obs.nontrivial = true;
                 check_peer(*kem, ikm_own, peer, stream, obs)
+            }
+            Case::ZeroXDh { kem, ikm_own, stream } => {
+                obs.label(format!("zero-x-dh:{}", kem.name()));
+                obs.nontrivial = true;
+                let (sk, _) = gen::ref_keypair(*kem, ikm_own);
+                match zero_x_peer(*kem, &sk) {
+                    Some(peer) => {
+                        // sanity: the reference DH really has a zero x-coordinate
+                        match r::dh(*kem, &sk, &peer) {
+                            Some(x) if x.iter().all(|&b| b == 0) => check_peer(*kem, ikm_own, &peer, stream, obs),
+                            _ => Verdict::skip("construction_failed(zero-x peer)"),
+                        }
+                    }
+                    None => Verdict::skip("no zero-x point on this curve"),
+                }
             }
             Case::Counter1 { index } => {
                 let es = match corpus::p256_counter1() {
